@@ -47,6 +47,7 @@ func runC15(r *Run) {
 	policy := t.Draw(len(c15Policies))
 	useCloseRead := t.Draw(2) == 1
 	nInbound := t.Draw(8)
+	r.DrawYields()
 	nWriters := t.Draw(3)
 	unsolicited := t.Pct(35)
 	inMsgs := 0
